@@ -25,7 +25,10 @@ Theorems (datasets of any size, any number of rows; nothing is bounded):
 * `joinBody_WF`, `join_WF`             unique identifier keys are preserved (n-ary; and in the shape `C10.ExtWF` asks for);
 * `joinBody_perm`, `join_perm`         the result does not depend on the order of the operands' rows (n-ary; and in
                                        the shape `C33.ExtPerm` asks for);
-  `joinE_ExtWF`, `joinE_ExtPerm`       hence `C10.evalD_WF` / `C33.evalD_perm` extend to expressions that contain joins.
+  `joinE_ExtWF`, `joinE_ExtPerm`       hence `C10.evalD_WF` / `C33.evalD_perm` extend to expressions that contain joins;
+* `full3_impl_counter`                 the full statement "run() = the specified join" is FALSE on this tree for full joins
+                                       of three datasets: the transpiled ON clause (`Sem/JoinImpl.lean`) duplicates an
+                                       identifier on a concrete witness, which the check replays on the real code.
 
 Everything VTL rejects is an error of the model (`join2`'s structural conditions, `using` on full/cross
 joins, a name clash after stripping), so no theorem holds because of a default value. -/
